@@ -899,6 +899,8 @@ class Emitter:
                     walk_expr(a, local)
             elif k == "block":
                 walk_block(e, local)
+            elif k == "withret":
+                walk_block(e[1], local)
             elif k in ("if",):
                 walk_expr(e[1], local); walk_block(e[2], local)
                 if e[3] is not None:
@@ -1115,6 +1117,14 @@ class Emitter:
             rhs = s[3]
             self.p.note_let(s[1], rhs)
             # `let x = recv.mutating_method(args)...;`  hoist the mutation
+            if rhs[0] == "withret":
+                blk = rhs[1]
+                ws = self.assigned(blk, [v for v in env if v not in self.pat_vars(s[1])])
+                K = Cont(normal=lambda env2: self.fail("closure without a value", rhs),
+                         ret=lambda v, env2: "(" + ", ".join([self.expr(v, env2)] + [ident(w) for w in ws]) + ")",
+                         value=lambda ast, env2: "(" + ", ".join([self.expr(ast, env2)] + [ident(w) for w in ws]) + ")")
+                text = seq(self, list(blk[1]), list(env), K, "; ", tail=blk[2])
+                return [self.let("(" + ", ".join([self.pat(s[1])] + [ident(w) for w in ws]) + ")", "(" + text + ")")]
             if rhs[0] in ("if", "iflet", "match", "block"):
                 ws = self.assigned(rhs, [v for v in env if v not in self.pat_vars(s[1])])
                 if ws:
@@ -1970,7 +1980,7 @@ UTIL_FILES = [
      ["handle_entry_limit_eviction", "insert", "increment_frequency", "get"]),
     ("Thread", "cachelito-core/src/thread_local_cache.rs", "RustLite.ThreadCache K V F",
      {"self.cache": "map", "self.order": "deque", "self.frequency_weight": "optf64", "self.stats": "stats"},
-     ["move_to_end", "increment_frequency", "remove_key", "remove_key_with_order", "handle_entry_limit_eviction", "insert"]),
+     ["move_to_end", "increment_frequency", "remove_key", "remove_key_with_order", "handle_entry_limit_eviction", "insert", "get"]),
     ("Async", "cachelito-core/src/async_global_cache.rs", "RustLite.AsyncCache K V F",
      {"self.cache": "map", "self.order": "deque", "self.frequency_weight": "optf64", "self.stats": "stats"},
      ["find_min_frequency_key", "find_arc_eviction_key", "find_tlru_eviction_key", "is_already_key_inserted",
@@ -2006,18 +2016,18 @@ def desugar_with(node):
                 for x in n:
                     find_ret(x)
         find_ret(body)
-        if not rets and (is_self_field(recv) or (recv[0] == "path" and len(recv[1]) == 1)):
+        if is_self_field(recv) or (recv[0] == "path" and len(recv[1]) == 1):
             first = ("let", ("pid", v), None, ("mcall", recv, "lock", None, []))
-            if body[0] == "block":
-                return ("block", [first] + list(body[1]), body[2])
-            return ("block", [first], body)
+            blk = ("block", [first] + list(body[1]), body[2]) if body[0] == "block" else ("block", [first], body)
+            # a closure that `return`s: the return leaves the CLOSURE — kept apart so that it is not read as a function return
+            return ("withret", blk) if rets else blk
     return tuple(desugar_with(x) for x in node)
 
 
 class Cont:
     """where a statement sequence goes when it ends normally / returns / breaks: functions env -> Lean text"""
-    def __init__(self, normal, ret=None, brk=None):
-        self.normal, self.ret, self.brk = normal, ret, brk
+    def __init__(self, normal, ret=None, brk=None, value=None):
+        self.normal, self.ret, self.brk, self.value = normal, ret, brk, value
 
 
 def has_exit(node):
@@ -2077,7 +2087,7 @@ def has_exit(node):
     return ex_exit(node)
 
 
-def seq(em, stmts, env, K, sep="; "):
+def seq(em, stmts, env, K, sep="; ", tail=None):
     """a statement sequence in continuation style: straight-line statements become `let`s; a statement that contains an
     exit (`return`, `break`) becomes an `if` / `match` whose branches each run to THEIR end — the rest of the sequence is
     inlined into the branches that fall through.  Guards taken in this sequence (`let g = self.f.lock()`) are aliases
@@ -2092,7 +2102,37 @@ def seq(em, stmts, env, K, sep="; "):
 
     Kin = Cont(normal=lambda env2: join(wb() + [K.normal(env2)], True),
                ret=(lambda v, env2: join(wb() + [K.ret(v, env2)], True)) if K.ret else None,
-               brk=(lambda env2: join(wb() + [K.brk(env2)], True)) if K.brk else None)
+               brk=(lambda env2: join(wb() + [K.brk(env2)], True)) if K.brk else None,
+               value=(lambda ast, env2: join(wb() + [K.value(ast, env2)], True)) if K.value else None)
+
+    def finish(env, lines, nested):
+        """the sequence has run through its statements: its tail expression (if any) is its value"""
+        if tail is None:
+            return join(lines + [Kin.normal(env)], nested)
+        if Kin.value is None:
+            em.fail("a block with a value where none is expected", tail)
+        if tail[0] in ("if", "iflet", "match", "block") and (has_exit(tail) or em.assigned(tail, env)):
+            Kt = Cont(normal=lambda env2: em.fail("a branch without a value"), ret=Kin.ret, brk=Kin.brk, value=Kin.value)
+
+            def tb(b, extra=()):
+                if b is None:
+                    em.fail("a branch without a value", tail)
+                if b[0] == "block":
+                    return seq(em, list(b[1]), env + list(extra), Kt, "; ", tail=b[2])
+                return seq(em, [], env + list(extra), Kt, "; ", tail=b)
+            if tail[0] == "if":
+                h = em.hoist(tail[1], env)
+                text = f"if {em.expr(h[1], env)} then ({tb(tail[2])}) else ({tb(tail[3])})"
+                return join(lines + h[0] + ["(" + text + ")"], nested)
+            if tail[0] == "iflet":
+                h = em.hoist(tail[2], env)
+                text = f"match {em.expr(h[1], env)} with | {em.pat(tail[1])} => ({tb(tail[3], em.pat_vars(tail[1]))}) | _ => ({tb(tail[4])})"
+                return join(lines + h[0] + ["(" + text + ")"], nested)
+            if tail[0] == "match":
+                arms = [f"| {em.pat(pt)} => ({tb(b, em.pat_vars(pt))})" for (pt, g, b) in tail[2]]
+                return join(lines + ["(" + f"match {em.expr(tail[1], env)} with " + " ".join(arms) + ")"], nested)
+            return join(lines + ["(" + tb(tail) + ")"], nested)
+        return join(lines + [Kin.value(tail, env)], nested)
 
     def go(i, env, nested=False):
         lines = []
@@ -2173,7 +2213,7 @@ def seq(em, stmts, env, K, sep="; "):
             else:
                 em.fail("exit inside an expression of this form", e)
             return join(lines + ["(" + text + ")"], nested)
-        return join(lines + [Kin.normal(env)], nested)
+        return finish(env, lines, nested)
 
     def loop_vars(body, env):
         return [w for w in em.assigned(body, env + ["stop__"]) if w != "stop__"]
